@@ -18,7 +18,12 @@ META = {
         'on copy/pickle; (getattr) Token.__getattr__ cannot recurse on objects '
         'created without __init__; (global) dispatch-time code writes no '
         'module-level mutable object and never writes through a memoised '
-        '(shared) result.'),
+        '(shared) result; (emptied) calculate, __call__, compile, to_dict and '
+        'write - with every method they reach through self - read none of the '
+        'attributes ExcelModel.__getstate__ replaces by empty containers, so '
+        'they cannot behave differently on a copy; (restore) no __init__ / '
+        '__setstate__ / __deepcopy__ binds a class-level or module-level '
+        'mutable container into an instance.'),
     'not_decided': (
         'Equality of results of the copy for all inputs, and what dill/copy do '
         'inside schedula objects.'),
@@ -518,14 +523,16 @@ def _is_super_call(e):
         e.func.value.func, ast.Name) and e.func.value.func.id == 'super'
 
 
-def rule_global(ctx):
-    rr = RuleResult('C17', 'C17.global', 'EFF',
+def rule_global(ctx, prop='C17', rule='C17.global', only=None, floor=150):
+    rr = RuleResult(prop, rule, 'EFF',
                     'dispatch-time code writes no shared module-level object',
-                    floor=150)
+                    floor=floor)
     E = ctx.effects
     p = ctx.project
     entries = entry_functions(ctx)
     for fq, (f, role, fresh) in sorted(entries.items()):
+        if only is not None and not only(f):
+            continue
         rr.instances += 1
         s = E.summ[f.fq]
         bad = []
@@ -564,7 +571,35 @@ def rule_global(ctx):
     return rr
 
 
+def rule_restore(ctx):
+    from .modelstate import shared_restores
+    rr = RuleResult('C17', 'C17.restore', 'ALIAS',
+                    'constructors and state-restoring hooks give every '
+                    'instance its own mutable containers', floor=10)
+    hooks = ('__init__', '__setstate__', '__deepcopy__', '__copy__', '__new__')
+    for c in sorted(ctx.project.classes.values(), key=lambda c: c.fq):
+        for h in hooks:
+            f = c.methods.get(h)
+            if f is None:
+                continue
+            rr.instances += 1
+            bad = shared_restores(ctx, f)
+            if not bad:
+                rr.ok('%s.%s installs no class-level or module-level mutable '
+                      'object into the instance' % (c.name, h),
+                      '%s:%d' % (f.module.rel, f.lineno), nontrivial=False)
+            for n, why in bad:
+                rr.fail(key_of(f, 'installs a shared mutable object'),
+                        '%s.%s: %s; two models restored from copies/pickles '
+                        'then write into the same container, so they are not '
+                        'independent' % (c.name, h, why), file=f.module.rel,
+                        function=f.qualname, line=n.lineno)
+    return rr
+
+
 def run(ctx):
+    from .modelstate import rule_emptied
     return [rule_array(ctx), rule_slots(ctx), rule_tokens(ctx),
-            rule_token_classes(ctx), rule_hooks(ctx), rule_getattr(ctx),
+            rule_token_classes(ctx), rule_hooks(ctx), rule_restore(ctx),
+            rule_emptied(ctx, 'C17', 'C17.emptied'), rule_getattr(ctx),
             rule_global(ctx)]
